@@ -198,12 +198,15 @@ func (c *Ctx) escMatchOne(res *Result, fn *ssa.Function, call *ssa.Call, m strin
 			}
 			// values derived from the location
 			derived := map[ssa.Value]bool{}
+			locIdx := map[ssa.Value]int64{} // which element of the location a position comes from (0 start, 1 end)
 			var work []ssa.Value
 			for _, r := range referrers(call) {
 				if ia, ok := r.(*ssa.IndexAddr); ok {
+					k, _ := constInt(ia.Index)
 					for _, rr := range referrers(ia) {
 						if ld, ok := rr.(*ssa.UnOp); ok && ld.Op == token.MUL {
 							derived[ld] = true
+							locIdx[ld] = k
 							work = append(work, ld)
 						}
 					}
@@ -215,6 +218,9 @@ func (c *Ctx) escMatchOne(res *Result, fn *ssa.Function, call *ssa.Call, m strin
 				for _, r := range referrers(v) {
 					if b, ok := r.(*ssa.BinOp); ok && (b.Op == token.ADD || b.Op == token.SUB) && !derived[b] {
 						derived[b] = true
+						if k, ok := locIdx[v]; ok {
+							locIdx[b] = k
+						}
 						work = append(work, b)
 					}
 				}
@@ -300,7 +306,20 @@ func (c *Ctx) escMatchOne(res *Result, fn *ssa.Function, call *ssa.Call, m strin
 							}
 						}
 					case *ssa.Phi:
-						// stored as the next search offset: must be an absolute position
+						// stored as the next search offset: at most one past the start of the match, or its end
+						if offsetV != nil && ssa.Value(x) == offsetV && absolute[v] {
+							if b, ok := v.(*ssa.BinOp); ok && b.Op == token.ADD {
+								if k, isC := constInt(b.Y); isC && absolute[b.X] {
+									limit := int64(1)
+									if locIdx[b.X] == 1 {
+										limit = 0
+									}
+									if k > limit {
+										problems = append(problems, fmt.Sprintf("the next search offset is set %d past the %s of the match (%s): when the match ends the text the offset lies beyond it and the next text[offset:] panics", k, map[int64]string{0: "start", 1: "end"}[locIdx[b.X]], c.P.InstrPos(b)))
+									}
+								}
+							}
+						}
 						if offsetV != nil && ssa.Value(x) == offsetV && !absolute[v] {
 							problems = append(problems, fmt.Sprintf("a position relative to the searched slice is stored as the next absolute search offset (%s): with two or more escaped look-alikes the search position stops advancing and generate never terminates", c.P.InstrPos(call)))
 						}
